@@ -177,7 +177,7 @@ package tls
 //@   note what the code does guarantee (bits 1 and 3 of every byte set, i.e. low nibbles a, b, e or f) is out of the solvers' reach in integer mode (only z3 4.8 proves the lowest byte, 37 s for the second)
 //@   ensures atleast: ret >= 0x0a0a0a0a
 //@   ensures C04_VIOLATED_version_nibbles: greasever(ret)
-//@   note C04_VIOLATED_version_nibbles is refuted: the code ORs 0x0a0a0a0a into a random word without masking with 0xfafafafa, so low nibbles b, e, f occur (randVal = 1 gives 0x0a0a0a0b)
+//@   note C04_VIOLATED_version_nibbles was refuted before the fix: commit 6e3a082: the code ORed 0x0a0a0a0a into a random word without masking with 0xfafafafa, so low nibbles b, e, f occur (randVal = 1 gives 0x0a0a0a0b)
 
 // ---------------------------------------------------------------------------------------------
 // C24: ID() and Value() of every QUIC transport parameter type.
